@@ -122,6 +122,10 @@ static void gen_clip (vf_rng *r, rq_image *im, int w, int h, int many)
 {
     int n = many ? (int)vf_range (r, 1, RQ_MAX_CLIP) : (int)vf_range (r, 1, 3);
     im->n_clip = n;
+    if (vf_chance (r, 1, 14)) {       /* a clip that is set but empty (e.g. a fully obscured window) */
+        im->n_clip = 1; im->clip[0].x1 = im->clip[0].x2 = (int)vf_range (r, 0, w); im->clip[0].y1 = im->clip[0].y2 = (int)vf_range (r, 0, h);
+        return;
+    }
     for (int i = 0; i < n; i++) {
         int x1 = (int)vf_range (r, -2, w), y1 = (int)vf_range (r, -1, h);
         int x2 = x1 + (int)vf_range (r, 1, w / 2 + 3), y2 = y1 + (int)vf_range (r, 1, h / 2 + 2);
@@ -299,7 +303,7 @@ static void fill_pixels (vf_buf *b, uint64_t seed, int style)
 
 /* a coherent palette: distinct entries, and ent[] maps every entry's own colour back to its index
  * (so that reading a pixel and storing it again is the identity, as with real palettes) */
-static pixman_indexed_t *make_palette (pixman_format_code_t f, uint64_t seed)
+pixman_indexed_t *rq_make_palette (pixman_format_code_t f, uint64_t seed)
 {
     pixman_indexed_t *p = calloc (1, sizeof *p); if (!p) return NULL;
     vf_rng r; vf_rng_seed (&r, seed, 0x9a1e, 7);
@@ -337,7 +341,7 @@ static int build_image (rq_image *im, vf_rng *r, int role)
         im->img = vf_buf_image (&im->buf);
     }
     if (!im->img) return 0;
-    if (im->kind == RQ_BITS && rp_is_indexed (im->fmt)) { im->palette = make_palette (im->fmt, im->pixseed); if (!im->palette) return 0; pixman_image_set_indexed (im->img, im->palette); }
+    if (im->kind == RQ_BITS && rp_is_indexed (im->fmt)) { im->palette = rq_make_palette (im->fmt, im->pixseed); if (!im->palette) return 0; pixman_image_set_indexed (im->img, im->palette); }
     if (im->kind == RQ_SOLID) { if (im->ca) pixman_image_set_component_alpha (im->img, 1); return 1; }
     if (role != 2) {
         if (im->tr_class != TR_NONE) pixman_image_set_transform (im->img, &im->tr);
